@@ -759,12 +759,14 @@ func checkWireNames(c *Ctx, p *Prog, S *stateRoles, rule string) {
 	}
 	// the discriminator in Apply reads the same member name the messages write
 	okDisc := false
-	for _, b := range S.apply.Blocks {
-		for _, in := range b.Instrs {
-			if al, ok := in.(*ssa.Alloc); ok {
-				if st, ok := al.Type().Underlying().(*types.Pointer).Elem().Underlying().(*types.Struct); ok && st.NumFields() == 1 {
-					if reflect.StructTag(st.Tag(0)).Get("json") == "headers" {
-						okDisc = true
+	for _, g := range staticReachState(p, S.apply, S) { // Apply or the decoding helper it calls
+		for _, b := range g.Blocks {
+			for _, in := range b.Instrs {
+				if al, ok := in.(*ssa.Alloc); ok {
+					if st, ok := al.Type().Underlying().(*types.Pointer).Elem().Underlying().(*types.Struct); ok && st.NumFields() == 1 {
+						if reflect.StructTag(st.Tag(0)).Get("json") == "headers" {
+							okDisc = true
+						}
 					}
 				}
 			}
@@ -800,6 +802,25 @@ func checkPanicFree(c *Ctx, p *Prog, S *stateRoles, rule string) {
 				if call, ok := in.(*ssa.Call); ok && calleeName(call.Common()) == "encoding/json.Unmarshal" {
 					if al, ok := stripConv(call.Common().Args[1]).(*ssa.Alloc); ok {
 						decoded[al] = true
+						// decoding into a pointer variable: JSON `null` leaves it nil without an
+						// error, so it must be nil-tested before it leaves this function
+						if pp, ok := al.Type().Underlying().(*types.Pointer); ok {
+							if _, isPtr := pp.Elem().Underlying().(*types.Pointer); isPtr {
+								tested := false
+								for _, ref := range *al.Referrers() {
+									if ld, ok := ref.(*ssa.UnOp); ok && ld.Op == token.MUL {
+										for _, r2 := range *ld.Referrers() {
+											if bo, ok := r2.(*ssa.BinOp); ok {
+												if _, _, isNil := nilTest(bo); isNil {
+													tested = true
+												}
+											}
+										}
+									}
+								}
+								c.Check(tested, rule, name+"/decode-into-pointer/nil-checked", p.Pos(in.Pos()), "a pointer the event is decoded into is tested against nil", "the event data is decoded into a pointer variable that is never tested against nil: for the JSON literal null json.Unmarshal reports no error and leaves it nil, and the first use of the message panics")
+							}
+						}
 					}
 				}
 			}
